@@ -313,6 +313,12 @@ pub fn exec(op: &str, a: &[u64]) -> Result<Outcome, String> {
                 }
             };
             let ids = &t.token_ids;
+            // the tokenizer object carries no state between calls: the same input gives the same ids after other
+            // inputs went through the same object
+            let other: String = s.chars().rev().chain("a b".chars()).collect();
+            let _ = b.tok.tokenize(&other, ign);
+            let _ = b.tok.tokenize("", !ign);
+            let repeat_ok = matches!(b.tok.tokenize(&s, ign), Ok(t3) if t3.token_ids == *ids);
             let mut v = vec![];
             enc_nats(&mut v, ids.iter().map(|&x| x as u64));
             let np = b.tok.prefix_token_ids().len();
@@ -328,6 +334,7 @@ pub fn exec(op: &str, a: &[u64]) -> Result<Outcome, String> {
                         enc_group(&mut v, g)?;
                     }
                     o = Outcome::new(ok(v));
+                    o.check(repeat_ok, "tokenizing the same input again (after other inputs) gives different ids: state carried between calls");
                     // C01 oracle: prefix ids, then exactly the UTF-8 bytes (specials as single ids), then suffix ids
                     let mut want: Vec<u32> = b.tok.prefix_token_ids().to_vec();
                     for (sp, p) in &pieces {
@@ -355,6 +362,7 @@ pub fn exec(op: &str, a: &[u64]) -> Result<Outcome, String> {
                 }
                 Kind::Char { alphabet, .. } => {
                     o = Outcome::new(ok(v));
+                    o.check(repeat_ok, "tokenizing the same input again (after other inputs) gives different ids: state carried between calls");
                     let pf = b.specials.iter().all(|x| !x.is_empty() && b.specials.iter().all(|y| x == y || !y.starts_with(x.as_str())));
                     if !(pf || ign) {
                         return Ok(o);
@@ -381,6 +389,7 @@ pub fn exec(op: &str, a: &[u64]) -> Result<Outcome, String> {
                 }
                 Kind::Bpe { .. } => {
                     o = Outcome::new(ok(v));
+                    o.check(repeat_ok, "tokenizing the same input again (after other inputs) gives different ids: state carried between calls");
                     o.check(ids.iter().all(|&i| (i as usize) < b.tok.vocab_size()), "emitted id outside the vocabulary");
                 }
             }
